@@ -332,7 +332,9 @@ class _TextualFinder:
     def _re_search(self, source: str) -> Iterator[int]:
         for match in self.pattern.finditer(source):
             if match.groupdict()["occurrence"]:
-                yield match.start("occurrence")
+                start, end = match.span("occurrence")
+                if self._is_whole_word(source, start, end):
+                    yield start
             elif match.groupdict()["fstring"]:
                 f_string = match.groupdict()["fstring"]
                 for offset in self._search_in_f_string(f_string):
@@ -361,15 +363,18 @@ class _TextualFinder:
             try:
                 found = source.index(self.name, current)
                 current = found + len(self.name)
-                if (found == 0 or not self._is_id_char(source[found - 1])) and (
-                    current == len(source) or not self._is_id_char(source[current])
-                ):
+                if self._is_whole_word(source, found, current):
                     yield found
             except ValueError:
                 break
 
+    def _is_whole_word(self, source, start, end):
+        return (start == 0 or not self._is_id_char(source[start - 1])) and (
+            end == len(source) or not self._is_id_char(source[end])
+        )
+
     def _is_id_char(self, c):
-        return c.isalnum() or c == "_"
+        return worder.is_identifier_char(c)
 
     def _fast_file_query(self, source):
         return self.name in source
@@ -381,7 +386,10 @@ class _TextualFinder:
             return pymodule.source_code
 
     def _get_occurrence_pattern(self, name):
-        occurrence_pattern = _TextualFinder.any("occurrence", ["\\b" + name + "\\b"])
+        # not `\b`: a name may end with a combining mark, which is not `\w`
+        occurrence_pattern = _TextualFinder.any(
+            "occurrence", [r"(?<!\w)" + name + r"(?!\w)"]
+        )
         # The name is tried last: a string literal starts at its prefix, so for
         # a name like `b`, `f` or `r` the prefix of b'...' must not match first.
         pattern = re.compile(
